@@ -263,6 +263,7 @@ Proof.
     destruct (negb auth); [inversion E; subst; exact C|].
     destruct (denom_of (table s) c k); inversion E; subst; exact C.
   - rewrite step_full_run. apply run_sub_cap; [apply end_block_full_ok | apply end_block_full_capped | exact C].
+  - unfold step; simpl. unfold Cap. eapply Permutation_Forall; [symmetry; apply genesis_batches_perm | exact C].
 Qed.
 
 Theorem open_batches_capped_proof : forall tb b0 sup0 ops,
@@ -436,7 +437,8 @@ Proof.
         apply atomically_cases in E as [[_ E]|[_ ->]]; [|exact C].
         unfold map_admin_raw in E. destruct (f 0%nat); [inversion E; subst; exact C|].
         destruct (negb auth); [inversion E; subst; exact C|].
-        destruct (denom_of (table s) c k); inversion E; subst; exact C. }
+        destruct (denom_of (table s) c k); inversion E; subst; exact C.
+      - unfold step; simpl. unfold Srt, genesis; simpl. apply pool_insert_all_sorted. constructor. }
   destruct (sub_op o) eqn:S; [apply sub_step_srt; auto|].
   destruct o; try (simpl in S; discriminate S); try (simpl in A; discriminate A).
   - unfold step; simpl. destruct (atomically s (send_raw f u c d a tax lim s)) as [[s' out] n] eqn:E. simpl.
@@ -460,6 +462,7 @@ Proof.
     unfold map_admin_raw in E. destruct (f 0%nat); [inversion E; subst; exact C|].
     destruct (negb auth); [inversion E; subst; exact C|].
     destruct (denom_of (table s) c k); inversion E; subst; exact C.
+  - unfold step; simpl. unfold Srt, genesis; simpl. apply pool_insert_all_sorted. constructor.
 Qed.
 
 Theorem pool_in_fee_order_proof : forall tb b0 sup0 ops,
